@@ -16,7 +16,7 @@ pub fn build(mut t: Tape) -> Built {
     let via_game = t.draw(CFG, 5) == 0;
     let (version, vars, entry, default_port) = if via_game {
         let i = t.draw(CFG, GAMESPY_GAMES.len() as u64) as usize;
-        (GAMESPY_GAMES[i].version, false, Entry::GsGame(i), GAMESPY_GAMES[i].port)
+        (GAMESPY_GAMES[i].version, false, Entry::GsGame(i), crate::golden::module_port(GAMESPY_GAMES[i].module, GAMESPY_GAMES[i].port))
     } else {
         let version = 1 + t.draw(CFG, 3) as u8;
         let vars = version != 2 && t.draw(CFG, 4) == 0;
